@@ -481,7 +481,39 @@ def union_member(ctx, cfg, acc):
     if N:
         for via in ("ts", "tc"):
             do_union(ctx, [1] + [2] * (N - 1), "asc", "asc", True, True, True, via, acc, record=True)
+        bad_mappings(ctx, acc)
     check_unmodified(ctx, acc, "union")
+
+
+def bad_mappings(ctx, acc):
+    """A node mapping that names a node self does not have (id == number of nodes, beyond, below NULL) or has the
+    wrong length is refused, with the shared-part check on and off, and leaves the tables alone."""
+    N = ctx.m.N
+    for check in (True, False):
+        for pos in (0, N - 1):
+            for bad in (N, N + 1, -2, 2 ** 31 - 1):
+                mapping = [-1] * N
+                mapping[pos] = bad
+                _refused(ctx, acc, mapping, check)
+        _refused(ctx, acc, [-1] * (N + 1), check)
+        if N > 1:
+            _refused(ctx, acc, [-1] * (N - 1), check)
+
+
+def _refused(ctx, acc, mapping, check):
+    case = dict(ctx.base, op="union_bad_mapping", mapping=mapping, check=check)
+    acc.ev(1, ctx.has_edges)
+    out = ctx.tc.copy()
+    before = _rt_tuple(R.from_tables(out))
+    try:
+        out.union(ctx.tc, mapping, check_shared_equality=check, record_provenance=False)
+    except Exception:  # noqa
+        if _rt_tuple(R.from_tables(out)) != before:
+            acc.fail("union:refused_but_modified", f"union(self, {mapping}, check_shared_equality={check}) raised but "
+                     f"changed the tables", case)
+        return
+    acc.fail("union:bad_mapping_accepted", f"union(self, {mapping}, check_shared_equality={check}) with {ctx.m.N} nodes "
+             f"was accepted", case)
 
 
 # ---------------------------------------------------------------------------------------
@@ -527,6 +559,12 @@ def perturbations(B):
         out.append(("mutation_metadata", "muts", k, (s, u, par, tm, der, md + b"x")))
         if tm is not None:
             out.append(("mutation_time", "muts", k, (s, u, par, tm + 0.015625, der, md)))
+        # known <-> unknown (only where the site has this one mutation: a site may not mix the two)
+        if sum(1 for row in B.muts if row[0] == s) == 1:
+            if tm is not None:
+                out.append(("mutation_time_to_unknown", "muts", k, (s, u, par, None, der, md)))
+            else:
+                out.append(("mutation_time_to_known", "muts", k, (s, u, par, B.nodes[u][1], der, md)))
     return out
 
 
